@@ -262,7 +262,9 @@ def _ends_shapes(tier):
             dict(kind='surface', deg=[2, 3], mult=[[1], []], rational=False, normalized=False),
             dict(kind='volume', deg=[1, 1, 1], mult=[[], [], []], rational=False, normalized=True),
             dict(kind='volume', deg=[2, 1, 1], mult=[[1], [], []], rational=False, normalized=True),
-            dict(kind='volume', deg=[1, 1, 2], mult=[[], [1], []], rational=True, normalized=True)]
+            dict(kind='volume', deg=[1, 1, 2], mult=[[], [1], []], rational=True, normalized=True),
+            dict(kind='volume', deg=[1, 2, 1], mult=[[], [], [1]], rational=False, normalized=True),      # degree_v > degree_w
+            dict(kind='surface', deg=[2, 1], mult=[[], [1]], rational=False, normalized=True)]          # degree_u > degree_v
     if tier == 'thorough':
         out += [dict(kind='curve', deg=[5], mult=[[2, 1]], rational=True, normalized=False),
                 dict(kind='surface', deg=[3, 3], mult=[[1], [2]], rational=True, normalized=True),
@@ -315,13 +317,17 @@ def ends(ctx, kind, deg, mult, rational, normalized):
             want = P[spec.layout(ijk[0], ijk[1], ijk[2], sizes[0], sizes[1])]
         got = obj.evaluate_single(prm[0] if kind == 'curve' else prm)
         ctx.check_eq_vec('corner%s=control_point' % ''.join(str(e) for e in c), got, want)
-    if kind == 'curve' and normalized:
-        # (sampling a curve whose knot vector is not normalised is the business of C17, not of this property)
-        obj.sample_size = 3
-        pts = obj.evalpts
-        ctx.check_true('evalpts.count', len(pts) == 3, 'len(evalpts) = %d, sample_size 3' % len(pts))
-        ctx.check_eq_vec('evalpts[0]=P[0]', pts[0], P[0])
-        ctx.check_eq_vec('evalpts[-1]=P[-1]', pts[-1], P[-1])
+    # the sampled grid of a clamped shape starts on the first and ends on the last control point (every parametric dimension,
+    # also on a knot vector that is kept as given)
+    if not normalized:
+        for a in range(nd):
+            ctx.assume(ctx.gt(kvs[a][-1] - kvs[a][0], Fraction(1, 10 ** 7)))       # linalg.linspace tolerance (A1)
+    ns = 3 if kind == 'curve' else 2
+    obj.sample_size = ns
+    pts = obj.evalpts
+    ctx.check_true('evalpts.count', len(pts) == ns ** nd, 'len(evalpts) = %d, sample_size %d per direction' % (len(pts), ns))
+    ctx.check_eq_vec('evalpts[0]=P[first]', pts[0], P[0])
+    ctx.check_eq_vec('evalpts[-1]=P[last]', pts[-1], P[-1])
 
 
 # ------------------------------------------------------------------------------------------------
@@ -529,7 +535,9 @@ def _length_shapes(tier):
            dict(p=1, n=3, samples=3, net='lattice'), dict(p=1, n=4, samples=4, net='lattice'), dict(p=1, n=5, samples=5, net='lattice'),
            dict(p=2, n=4, samples=4, net='lattice'), dict(p=3, n=5, samples=4, net='lattice'),
            # a sub-range was evaluated before the length is asked for: the length is still that of the whole curve
-           dict(p=1, n=3, samples=3, net='sym', partial=True), dict(p=2, n=4, samples=4, net='lattice', partial=True)]
+           dict(p=1, n=3, samples=3, net='sym', partial=True), dict(p=2, n=4, samples=4, net='lattice', partial=True),
+           # a knot vector kept as given on [1, 4] (normalize_kv=False)
+           dict(p=1, n=3, samples=3, net='sym', shift=True), dict(p=2, n=4, samples=3, net='lattice', shift=True)]
     if tier == 'thorough':
         out += [dict(p=2, n=3, samples=4, net='sym'), dict(p=1, n=4, samples=4, net='sym'), dict(p=2, n=4, samples=3, net='sym'),
                 dict(p=1, n=6, samples=6, net='lattice')]
@@ -538,18 +546,18 @@ def _length_shapes(tier):
 
 @scenario('C18', fns=['operations.length_curve', 'linalg.point_distance', 'abstract.Curve.evalpts'],
           quick=lambda: _length_shapes('quick'), thorough=lambda: _length_shapes('thorough'))
-def length(ctx, p, n, samples, net, partial=False):
+def length(ctx, p, n, samples, net, partial=False, shift=False):
     """requires: non-rational clamped curve, uniform concrete knots, `samples` evaluated points;
                  net='sym': one symbolic coordinate per control point, 'lattice': control polygon with rational steps
        ensures : length_curve == sum of |evalpts[i+1] - evalpts[i]|  >=  |evalpts[-1] - evalpts[0]| = |P[-1] - P[0]|;
                  a non-curve is rejected.  (The upper bound by the control polygon is excluded, see module docstring.)"""
     ops = ctx.geomdl('operations')
-    U = [ctx.lit(k) for k in _uniform_kv(p, n)]
+    U = [ctx.lit(1 + 3 * k if shift else k) for k in _uniform_kv(p, n)]
     if net == 'sym':
         P = shapes.net(ctx, 'P', n, 2)
     else:
         P = [[ctx.lit(c) for c in pt] for pt in _lattice_polygon(n)]
-    crv = shapes.build_curve(ctx, p, U, P)
+    crv = shapes.build_curve(ctx, p, U, P, normalize_kv=not shift)
     crv.sample_size = samples
     if partial:
         crv.evaluate(start=Fraction(1, 4), stop=Fraction(3, 4))
